@@ -133,8 +133,9 @@ impl CVec {
 pub struct C01;
 
 impl C01 {
-    fn gen_plan(seed: u64, _tier: Tier) -> CounterPlan {
+    fn gen_plan(seed: u64, tier: Tier) -> CounterPlan {
         let mut r = Rng::new(seed, 1);
+        let deep = tier == Tier::Thorough && r.chance(50);
         let nthreads = if r.chance(8) { 1 } else { 2 + r.below(3) as usize };
         let reset_run = r.chance(6);
         let mut next_bit = 8u8;
@@ -142,10 +143,12 @@ impl C01 {
         let mut reset_placed = false;
         let mut nops = 0u64;
         for _ in 0..nthreads {
-            let n = 1 + r.below(5) as usize;
+            let n = 1 + r.below(if deep { 8 } else { 5 }) as usize;
             let mut ops = vec![];
             for _ in 0..n {
-                let op = match r.below(100) {
+                // weights stay below 2^52 so that float sums are exact
+                let roll = if next_bit > 48 { 60 } else { r.below(100) };
+                let op = match roll {
                     0..=34 => {
                         next_bit += 1;
                         COp::IncBy(next_bit - 1)
